@@ -23,6 +23,7 @@ import subprocess
 import sys
 import time
 import traceback
+import warnings
 from typing import Any, Dict, List, Optional, Tuple
 
 from .tape import Tape, minimise
@@ -162,7 +163,9 @@ def run_one(sim: Simulator, tape: Tape) -> RunResult:
     gc.disable()
     global _RUNS_SINCE_GC
     try:
-        return _run_one(sim, tape, trace, stats)
+        with warnings.catch_warnings():
+            warnings.simplefilter("ignore")     # e.g. DeprecationWarning from a deprecated generated rpc
+            return _run_one(sim, tape, trace, stats)
     finally:
         sys.setrecursionlimit(old_limit)
         _RUNS_SINCE_GC += 1
@@ -300,12 +303,12 @@ def labelled_tape(sim: Simulator, tape: List[int]) -> Tuple[RunResult, List[str]
     return res, [f"{lab}={v}" for lab, v in zip(t.labels, t.log)]
 
 
-def write_replay(sim: Simulator, seed: int, viol: Dict[str, Any], min_tape: List[int]) -> str:
+def write_replay(sim: Simulator, seed: int, viol: Dict[str, Any], min_tape: List[int], tier: str = "quick") -> str:
     os.makedirs(REPLAY_DIR, exist_ok=True)
     res, labels = labelled_tape(sim, min_tape)
     path = os.path.join(REPLAY_DIR, f"{sim.property_id}-{viol['rule']}-{seed}-{viol['run']}.json")
     doc = dict(
-        property=sim.property_id, simulator=sim.name, verif_seed=seed, run_index=viol["run"],
+        property=sim.property_id, simulator=sim.name, verif_seed=seed, tier=tier, run_index=viol["run"],
         rule=res.rule or viol["rule"], sig=res.sig or viol["sig"],
         rule_text=sim.rules.get(viol["rule"], ""),
         message=res.message or viol["message"],
@@ -322,7 +325,8 @@ def write_replay(sim: Simulator, seed: int, viol: Dict[str, Any], min_tape: List
 def do_replay(sim: Simulator, path: str) -> int:
     with open(path) as f:
         doc = json.load(f)
-    sim.prepare("quick")
+    sim.verif_seed = doc.get("verif_seed", 0)       # what prepare() builds may depend on seed and tier
+    sim.prepare(doc.get("tier", "quick"))
     try:
         res = run_one(sim, Tape.replay(doc["minimised_tape"]))
     finally:
@@ -530,10 +534,14 @@ def _search(sim: Simulator, tier: str, seed: int, cfg: Dict[str, Any], workers: 
             r = run_one(sim, Tape.replay(c))
             return r.outcome == "VIOLATION" and r.rule == rule and r.sig == sig
         t1 = time.time()
+        if not fails(v["tape"]):
+            print(f"HARNESS: violation {rule} [{sig}] of run {v['run']} does not reproduce when its tape is "
+                  f"re-executed in the parent process (state leaked between runs?): {v['message'][:300]}", flush=True)
+            return 2
         tb = max(0.0, min(20.0, 90.0 - min_spent))
-        mt = minimise(v["tape"], fails, budget=300, time_budget=tb) if (tb > 0 and fails(v["tape"])) else v["tape"]
+        mt = minimise(v["tape"], fails, budget=300, time_budget=tb) if tb > 0 else v["tape"]
         min_spent += time.time() - t1
-        path = write_replay(sim, seed, v, mt)
+        path = write_replay(sim, seed, v, mt, tier)
         with open(path) as f:
             doc = json.load(f)
         kf = match_known(known, rule, sig, doc["message"])
@@ -613,6 +621,10 @@ def main(registry: Dict[str, Any], argv: Optional[List[str]] = None) -> int:
         env["VERIF_REEXEC"] = "1"
         env["PYTHONHASHSEED"] = "0"
         env["PYTHONDONTWRITEBYTECODE"] = "1"
+        # interpreter switches inherited from the caller must not decide a verdict
+        for k in ("PYTHONWARNINGS", "PYTHONDEVMODE", "PYTHONASYNCIODEBUG", "PYTHONTRACEMALLOC", "PYTHONOPTIMIZE",
+                  "PYTHONINSPECT", "PYTHONPROFILEIMPORTTIME"):
+            env.pop(k, None)
         os.execve(sys.executable, [sys.executable, os.path.join(VERIF_DIR, "check")] + (argv or sys.argv[1:]), env)
 
     if args.property not in registry:
